@@ -276,4 +276,6 @@ Proof.
   - (* WorkerCloseCall *) go5.
   - (* Exit *) go5.
   - (* Arrive *) go5.
+  - (* Block *) go5.
+  - (* Unblock *) go5.
 Qed.
